@@ -129,6 +129,8 @@ struct PrngWorld : World {
         std::vector<Draw> draws;
         std::vector<std::pair<int, uint64_t>> feeds; // (op index, epoch) of non-empty feeds
         int flip_feed_op = -1;                        // twin: flip one byte of this feed
+        int flip_flash_op = -1;                       // twin: flip one byte of the stored seed right before this load
+        std::vector<std::pair<int, uint64_t>> loads;   // (op index, epoch) of loads whose read callback delivered a full seed
         std::vector<Bytes> *residue = nullptr;
         jmp_buf jb;
     };
@@ -324,9 +326,12 @@ struct PrngWorld : World {
         int r0 = c.flash.reads;
         c.flash.power = &c.jb;
         if (setjmp(c.jb)) { power_loss(c); return; }
+        if (c.flip_flash_op == c.run->cur_op && c.flash.mem.size() >= 32) c.flash.mem[5] ^= 0x20;
         int r = ascon_random_load_seed(c.ram, &c.flash.st);
         c.flash.power = nullptr;
         if (c.rng.calls > before.calls) c.model_counter = 0;
+        if (c.flash.reads > r0 && c.flash.last_read_ret == ASCON_RANDOM_SAVED_SEED_SIZE && c.flash.st.size >= ASCON_RANDOM_SAVED_SEED_SIZE)
+            c.loads.push_back({c.run->cur_op, c.epoch});
         if (c.record) {
             c.run->fold_u64((uint64_t)(int64_t)r);
             bool too_small = c.flash.st.size < ASCON_RANDOM_SAVED_SEED_SIZE;
@@ -363,7 +368,7 @@ struct PrngWorld : World {
     }
 
     // One complete execution of the plan. flip_pos: tape position to flip (or ~0).
-    void pass(const Plan &plan, Run &run, bool record, uint64_t salt, uint64_t flip_pos, int flip_feed_op,
+    void pass(const Plan &plan, Run &run, bool record, uint64_t salt, uint64_t flip_pos, int flip_feed_op, int flip_flash_op, std::vector<std::pair<int, uint64_t>> *loads,
               std::vector<Event> &events, std::vector<std::pair<int, uint64_t>> *feeds, uint64_t *tape_used, std::vector<Draw> *draws,
               std::vector<Bytes> *residue, uint8_t dirt)
     {
@@ -373,6 +378,7 @@ struct PrngWorld : World {
         c.record = record;
         c.salt = salt;
         c.flip_feed_op = flip_feed_op;
+        c.flip_flash_op = flip_flash_op;
         c.residue = residue;
         simrng_reset(&c.rng, (uint64_t)plan.knob("tape", 0) * 0 + plan_knob2(plan, "tape", 1) + salt, (int)plan.knob("tape", 0) % 7);
         c.rng.flip_pos = flip_pos;
@@ -411,6 +417,7 @@ struct PrngWorld : World {
         events.swap(c.events);
         if (feeds) feeds->swap(c.feeds);
         if (draws) draws->swap(c.draws);
+        if (loads) loads->swap(c.loads);
         if (tape_used) *tape_used = c.rng.pos;
         simrng_use(nullptr);
         free(mem);
@@ -429,9 +436,10 @@ struct PrngWorld : World {
         bool twin = plan.knob("twin", 0) != 0;
         std::vector<Bytes> r1, r2;
         std::vector<Draw> draws;
-        pass(plan, run, true, 0, ~0ull, -1, e1, &feeds, &used, &draws, twin ? &r1 : nullptr, 0xD7);
+        std::vector<std::pair<int, uint64_t>> loads;
+        pass(plan, run, true, 0, ~0ull, -1, -1, &loads, e1, &feeds, &used, &draws, twin ? &r1 : nullptr, 0xD7);
         // Oracle 1: deterministic function of tape and feeds (second execution: other RAM address and dirt)
-        pass(plan, run, false, 0, ~0ull, -1, e2, nullptr, nullptr, nullptr, nullptr, 0x2B);
+        pass(plan, run, false, 0, ~0ull, -1, -1, nullptr, e2, nullptr, nullptr, nullptr, nullptr, 0x2B);
         bool same = e1.size() == e2.size();
         for (size_t i = 0; same && i < e1.size(); ++i) same = e1[i].out == e2[i].out;
         if (!same) run.violation("C15", "deterministic_in_tape_and_feeds", "replay", "two executions with the same entropy tape and feeds produced different output");
@@ -439,7 +447,7 @@ struct PrngWorld : World {
         // Oracle 2a: flip one consumed tape byte; every later block of >= 16 bytes of the same instance differs
         if (used > 0) {
             uint64_t fp = fs % used;
-            pass(plan, run, false, 0, fp, -1, e3, nullptr, nullptr, nullptr, nullptr, 0xD7);
+            pass(plan, run, false, 0, fp, -1, -1, nullptr, e3, nullptr, nullptr, nullptr, nullptr, 0xD7);
             run.probe("influence.tape_flip");
             uint64_t ep = ~0ull;
             for (const Draw &d : draws) if (d.begin <= fp && fp < d.end) ep = d.epoch;
@@ -448,13 +456,22 @@ struct PrngWorld : World {
         // Oracle 2b: flip one byte of one feed
         if (!feeds.empty()) {
             auto fd = feeds[(size_t)((fs >> 20) % feeds.size())];
-            pass(plan, run, false, 0, ~0ull, fd.first, e4, nullptr, nullptr, nullptr, nullptr, 0xD7);
+            pass(plan, run, false, 0, ~0ull, fd.first, -1, nullptr, e4, nullptr, nullptr, nullptr, nullptr, 0xD7);
             run.probe("influence.feed_flip");
             compare_influence(run, e1, e4, ~0ull, fd.first, fd.second);
         }
+        // Oracle 2c: a seed that load_seed reports as loaded is fed to the generator: flipping one stored byte right
+        // before such a load changes every later block of that instance
+        if (!loads.empty()) {
+            auto ld = loads[(size_t)((fs >> 40) % loads.size())];
+            std::vector<Event> e6;
+            pass(plan, run, false, 0, ~0ull, -1, ld.first, nullptr, e6, nullptr, nullptr, nullptr, nullptr, 0xD7);
+            run.probe("influence.stored_seed_flip");
+            compare_influence(run, e1, e6, ~0ull, ld.first, ld.second);
+        }
         if (twin) {
             std::vector<Event> e5;
-            pass(plan, run, false, 0x7e57ab1e5ec2e7ULL, ~0ull, -1, e5, nullptr, nullptr, nullptr, &r2, 0xD7);
+            pass(plan, run, false, 0x7e57ab1e5ec2e7ULL, ~0ull, -1, -1, nullptr, e5, nullptr, nullptr, nullptr, &r2, 0xD7);
             for (size_t i = 0; i < std::min(r1.size(), r2.size()); ++i) {
                 run.probe("twin.free_compared");
                 if (r1[i] != r2[i]) run.violation("C13", "residue_after_free", "ascon_random_state_t", "generator bytes after ascon_random_free differ between twin-secret runs");
@@ -481,7 +498,7 @@ struct PrngWorld : World {
             if (x.out == y.out)
                 run.violation("C15", "every_input_byte_influences_later_output", x.kind ? "ascon_random" : "ascon_random_fetch",
                               fmt("output of %zu bytes at op %d unchanged after flipping %s", x.out.size(), x.op,
-                                  feed_op < 0 ? fmt("entropy tape byte %llu", (unsigned long long)flip_pos).c_str() : fmt("a byte fed at op %d", feed_op).c_str()));
+                                  feed_op < 0 ? fmt("entropy tape byte %llu", (unsigned long long)flip_pos).c_str() : fmt("a byte fed (or loaded from storage) at op %d", feed_op).c_str()));
         }
         if (any_checked) run.probe("influence.blocks_compared");
     }
